@@ -140,6 +140,7 @@ func (p *Protocol) handleEventDownloadBlock(msg *queue.Message) {
 		//一个高度对应一个任务
 		go func(blockheight int64, tasks tasks) {
 			defer wg.Done()
+			defer verifDlGate(p, "exit", blockheight, nil, nil, nil)
 			err := p.downloadBlock(blockheight, tasks, &mutex)
 			if err != nil {
 				mutex.Lock()
@@ -170,6 +171,7 @@ func (p *Protocol) handleEventDownloadBlock(msg *queue.Message) {
 	}
 
 	wg.Wait()
+	verifDlGate(p, "waited", req.GetStart(), nil, nil, nil)
 	p.checkTask(taskID, pids, reDownload)
 	log.Debug("Download Job Complete!", "TaskID++++++++++++++", taskID,
 		"height diff", req.GetEnd()-req.GetStart()+1,
